@@ -52,9 +52,10 @@ Definition img_width (im : img) : N :=
   match im with [] => 0 | r :: _ => N.of_nat (length r) end.
 Definition img_pixels (im : img) : list rgb := concat im.
 
-(* (height * width / (palette_size * 100)) as u32 *)
+(* (height * width / palette_size.saturating_mul(100)) as u32 *)
+Definition sat_mul100 (k : N) : N := N.min (k * 100) 18446744073709551615.
 Definition sample_of (im : img) (k : N) : N :=
-  ((img_height im * img_width im) / (k * 100)) mod 4294967296.
+  ((img_height im * img_width im) / sat_mul100 k) mod 4294967296.
 
 (* the octree from_image builds before pruning *)
 Definition image_octree (im : img) (k : N) : outcome octree :=
@@ -65,7 +66,7 @@ Definition image_octree (im : img) (k : N) : outcome octree :=
 (* Err 0 = the function returned None *)
 Definition palette_of_image (im : img) (k : N) : outcome (list rgb) :=
   if (img_height im =? 0) || (img_width im =? 0) then Err 0
-  else if k =? 0 then Panic 1685                            (* division by zero *)
+  else if k =? 0 then Panic 1716                            (* division by zero *)
   else
     let* t := image_octree im k in
     let* t' := prune_until k t in
@@ -173,5 +174,6 @@ Definition quantize_holds (im : img) (k : N) (dither : bool)
   forall2b (fun (_ : rgb) i => i <? np) im q &&
   (dither ||
    forall2b (fun c i => is_nearestb pal c i (nth (N.to_nat i) pal (0, 0, 0))) im q) &&
-  (negb ((distinct_colors im <=? k) && (sample_of im k <? 2)) ||
-   forall2b (fun c i => rgb_eqb (nth (N.to_nat i) pal (256, 256, 256)) c) im q).
+  (* (`if`, not `&&`: the count of distinct colours is only computed for images that are not subsampled) *)
+  (if (if sample_of im k <? 2 then distinct_colors im <=? k else false)
+   then forall2b (fun c i => rgb_eqb (nth (N.to_nat i) pal (256, 256, 256)) c) im q else true).
